@@ -246,10 +246,12 @@ def validate_traces(module, event_files, cfg=None, timeout=1500, heap="3g", env=
         r = tlc(module, cfg, workers=1, env=e, timeout=timeout, heap=heap, label=os.path.basename(ef))
         if not r["ok"] or not os.path.exists(bad):
             tail = "\n".join(r["out"].splitlines()[-60:])
-            # An observation the specification cannot even evaluate (a garbage extent that overflows TLC's integers, an ill-typed
-            # value) is not a behaviour of the specification: isolate the offending event by bisection and report it as a
+            # An observation the specification cannot even evaluate (an ill-typed value: a string where numbers are compared, a
+            # missing field) is not a behaviour of the specification: isolate the offending event by bisection and report it as a
             # mismatch.  Anything else (time-out, memory, a parse error of the specification) stays inconclusive.
-            evaluation_error = any(k in r["out"] for k in ("Overflow", "Attempted to", "unable to fingerprint", "was not in the domain", "nonexistent field"))
+            # (an arithmetic overflow is NOT taken as evidence against the code: it can come from the reference computation on
+            # legitimate values and stays inconclusive)
+            evaluation_error = "Overflow" not in r["out"] and any(k in r["out"] for k in ("Attempted to compare", "Attempted to check equality", "nonexistent field"))
             lines = [l for l in open(ef_tlc) if l.strip()]
             if evaluation_error and depth < 14 and len(lines) >= 1 and multi_event_ok:
                 if len(lines) == 1:
